@@ -448,6 +448,10 @@ func randMap(r *c.Rng, odd bool, sp int) (map[string]string, bool) {
 				v = c.Pick(r, valPool)
 			}
 		}
+		if r.Chance(1, 5) {
+			// text special to a formatter / to the dump (special.go)
+			k, v = fmtEntry(r)
+		}
 		if odd && r.Chance(1, 4) {
 			k = c.Pick(r, oddKeys)
 		}
@@ -642,7 +646,14 @@ func main() {
 		"Mixed-Case per case (random sequences also both spellings in one sequence); named pairs: every ordered pair " +
 		"of kinds that are not no-ops (16 + 4 cells) x each of these 10 names x lower / Mixed-Case x with / without " +
 		"bodies, the two (three) actions setting the name to different values, shapes [a1,a2] [a1,no-op,a2] " +
-		"[no-op,a1,a2,a3]. Held encodings (suite held): 2-5 transactions of either side combined and encoded in turn " +
+		"[no-op,a1,a2,a3]. Header text special to a formatter or to the dump (special.go): every pool (kind sequences, " +
+		"random sequences, sessions systematic and random, account tokens of the legacy suites, held encodings) also draws " +
+		"values 100% %2F %s %d %! % %% %[1]s %*d URL-encoded targets, values with ':' (times, URLs, a lone ':'), tab, " +
+		"UTF-8, the empty value, and names x-%s x-pct% % x%2Fy tab / non-ASCII names; systematic: every kind that " +
+		"carries a header dump (4 request kinds, 2 response kinds) x each such value / name x {only entry of the map, " +
+		"between two plain entries, overwriting an earlier plain value while another special text survives}. A newline " +
+		"in a name or value and a ':' in a name are not representable in a dump: random sequences only, counted, the " +
+		"monitor demands nothing of such a dump. Held encodings (suite held): 2-5 transactions of either side combined and encoded in turn " +
 		"(loop over the public methods or the real routing fold), every encoding kept alive, read at once and again " +
 		"after all the others; systematic: every ordered pair of {early response, modified request, generated request, " +
 		"header edit, modified response, retry} x second body shorter / longer / as long x via, then a third " +
@@ -676,6 +687,7 @@ func main() {
 	run(o, Case{Side: "resp"})
 	witnesses(f)
 	namedPairs(f)
+	fmtSingles(f)
 	o.Exhaustive(true) // within the scope the rule states for the tier
 	switch o.Tier {
 	case "thorough":
